@@ -87,10 +87,19 @@ type Config struct {
 	MaxSteps   int
 	MaxRounds  uint64
 	MaxChain   int
+	// ExactTwoThirds: liveness run in which the honest members hold exactly 2/3 of a scaled total
+	// divisible by three.
+	ExactTwoThirds bool
+	// Deviant is the index of an honest member that enters instance 0 with a base differing from
+	// everybody else's (-1: none); DeviantKind says how (0 commitments, 1 power-table CID, 2 key).
+	// Such a member can never decide: every decision must start at the decider's own base.
+	Deviant     int
+	DeviantKind int
 	Branches   int
 }
 
 type Member struct {
+	deviant bool // entered instance 0 with a base nobody else has
 	Idx  int
 	ID   gpbft.ActorID
 	Pub  gpbft.PubKey
@@ -174,6 +183,7 @@ type World struct {
 	pmm        *pmsg.PartialMessageManager
 	chainAvail map[int]map[gpbft.ECChainKey]time.Duration
 	vo   *validatorOracle
+	otherViol  map[string]int // violations of properties other than the one under check, by "prop:kind"
 	verifyHook func() // one-shot hook run inside the next Verify call (seam for interleaved validations)
 }
 
@@ -184,6 +194,10 @@ func (w *World) fail(prop, kind, key, format string, args ...any) {
 	if prop != w.prop {
 		// Only the property under check is decided by this run.
 		w.r.Probe("other_property_violation_" + prop + "_" + kind)
+		if w.otherViol == nil {
+			w.otherViol = map[string]int{}
+		}
+		w.otherViol[prop+":"+kind]++
 		return
 	}
 	key = kind + ":" + key
